@@ -55,4 +55,24 @@ PROPS = {
                  thorough=dict(checks=1000000, shards=16, budget_s=1800, shrink="2m")),
         ],
     ),
+    "C20": dict(
+        level="exploration",
+        text="Exploration by generated search: certificate requests over generated name sets (node IDs of every length class incl. > 127 bytes, arbitrary UTF-8, "
+             "duplicates, empty list; DNS names; IPv4/IPv6; new or existing key; API or file tooling; validity windows) are issued by receptor's own tooling and "
+             "checked by round trip and by receptor's own peer verification in both directions (accepted for every requested ID, refused for neighbouring IDs); "
+             "generated and mutated subjectAltName DER is read back and compared with a by-construction expectation / a strict independent reader.",
+        note="Trusted: Go's crypto/x509 parser for DNS/IP names, the harness' DER encoder and strict reader. An error from the reader is always acceptable "
+             "on non-standard input; a different name never is.",
+        technique="property-based testing (rapid): round-trip + metamorphic (neighbouring IDs refused) over generated name sets; grammar-based DER generation with byte mutation against a strict reference reader",
+        assumptions=["node IDs are valid UTF-8 (they travel through JSON elsewhere in the protocol)", "DNS names are syntactically valid host names (Go's x509 parser rejects others)",
+                     "validity-window edges within one hour of the wall clock are not asserted either way"],
+        parts=[
+            part("issue", "netprops", "TestC20Issue", "C20.issue", inproc=True,
+                 quick=dict(checks=2400, shards=8, budget_s=300),
+                 thorough=dict(checks=100000, shards=16, budget_s=3000, shrink="2m")),
+            part("der", "netprops", "TestC20Der", "C20.der", inproc=True,
+                 quick=dict(checks=40000, shards=4, budget_s=300),
+                 thorough=dict(checks=2000000, shards=16, budget_s=3000, shrink="2m")),
+        ],
+    ),
 }
